@@ -1,0 +1,252 @@
+//go:build verif
+
+package util
+
+// Verification hooks.  Only compiled with `-tags verif`.
+//
+// Environment:
+//
+//	VERIF_TRACE=<file>   append one JSON line per point hit
+//	VERIF_DELAYS=name=maxms@prob;...  sleep up to maxms with probability prob
+//	                     (name may end in * for prefix match)
+//	VERIF_CRASH=name#k:SIG  at the k-th (1-based) hit of name, send SIG
+//	                     (KILL, TERM or INT) to this process.  With
+//	                     name "*" hits of all points are counted together.
+//	VERIF_CRASH_ONCE=<file>  if set, the crash fires only if the file does
+//	                     not exist yet; it is created just before firing.
+//	VERIF_PROC=<name>    delays and crashes only apply to processes whose
+//	                     executable base name is <name> (default "mrp");
+//	                     tracing applies to every process.
+//	VERIF_SEED=<int>     seeds the delay PRNG
+//	VERIF_INVENTORY=1    for points named "vdr:remove*", walk detail[0]
+//	                     and record entry count / lstat byte total.
+
+import (
+	"encoding/json"
+	"os"
+	"path/filepath"
+	"strconv"
+	"strings"
+	"sync"
+	"sync/atomic"
+	"syscall"
+	"time"
+
+	"golang.org/x/sys/unix"
+)
+
+type verifDelay struct {
+	name   string
+	prefix bool
+	maxMs  int
+	prob   float64
+}
+
+type verifState struct {
+	once      sync.Once
+	trace     *os.File
+	delays    []verifDelay
+	crashName string
+	crashK    int64
+	crashSig  syscall.Signal
+	crashOnce string
+	inventory bool
+	active    bool
+	proc      string
+	seed      uint64
+	seq       atomic.Int64
+	crashHits atomic.Int64
+	start     time.Time
+	mu        sync.Mutex
+	hits      map[string]int64
+}
+
+var verifSt verifState
+
+func verifInit() {
+	s := &verifSt
+	s.start = time.Now()
+	s.hits = make(map[string]int64)
+	s.proc = filepath.Base(os.Args[0])
+	want := os.Getenv("VERIF_PROC")
+	if want == "" {
+		want = "mrp"
+	}
+	s.active = s.proc == want
+	if p := os.Getenv("VERIF_TRACE"); p != "" {
+		if f, err := os.OpenFile(p, os.O_APPEND|os.O_CREATE|os.O_WRONLY, 0644); err == nil {
+			s.trace = f
+		}
+	}
+	if sd, err := strconv.ParseUint(os.Getenv("VERIF_SEED"), 10, 64); err == nil {
+		s.seed = sd
+	}
+	s.seed ^= uint64(os.Getpid()) * 0x9E3779B97F4A7C15
+	for _, part := range strings.Split(os.Getenv("VERIF_DELAYS"), ";") {
+		part = strings.TrimSpace(part)
+		if part == "" {
+			continue
+		}
+		eq := strings.LastIndexByte(part, '=')
+		if eq < 0 {
+			continue
+		}
+		d := verifDelay{name: part[:eq], prob: 1}
+		spec := part[eq+1:]
+		if at := strings.IndexByte(spec, '@'); at >= 0 {
+			d.prob, _ = strconv.ParseFloat(spec[at+1:], 64)
+			spec = spec[:at]
+		}
+		d.maxMs, _ = strconv.Atoi(spec)
+		if strings.HasSuffix(d.name, "*") {
+			d.prefix = true
+			d.name = strings.TrimSuffix(d.name, "*")
+		}
+		s.delays = append(s.delays, d)
+	}
+	if c := os.Getenv("VERIF_CRASH"); c != "" {
+		// name#k:SIG
+		colon := strings.LastIndexByte(c, ':')
+		hash := strings.LastIndexByte(c, '#')
+		if colon > hash && hash > 0 {
+			s.crashName = c[:hash]
+			s.crashK, _ = strconv.ParseInt(c[hash+1:colon], 10, 64)
+			switch c[colon+1:] {
+			case "KILL":
+				s.crashSig = syscall.SIGKILL
+			case "TERM":
+				s.crashSig = syscall.SIGTERM
+			case "INT":
+				s.crashSig = syscall.SIGINT
+			}
+		}
+	}
+	s.crashOnce = os.Getenv("VERIF_CRASH_ONCE")
+	s.inventory = os.Getenv("VERIF_INVENTORY") != ""
+}
+
+func verifMonoNs() int64 {
+	var ts unix.Timespec
+	unix.ClockGettime(unix.CLOCK_MONOTONIC, &ts)
+	return ts.Sec*1e9 + ts.Nsec
+}
+
+func verifInventory(root string) (count int64, size int64, paths []string) {
+	filepath.Walk(root, func(p string, info os.FileInfo, err error) error {
+		if err != nil || info == nil {
+			return nil
+		}
+		if p == root && info.IsDir() {
+			return nil
+		}
+		count++
+		size += info.Size()
+		if len(paths) < 4096 {
+			paths = append(paths, p)
+		}
+		return nil
+	})
+	return
+}
+
+type verifRecord struct {
+	T      int64    `json:"t"`
+	Pid    int      `json:"pid"`
+	Proc   string   `json:"proc"`
+	Seq    int64    `json:"seq"`
+	Name   string   `json:"name"`
+	Hit    int64    `json:"hit"`
+	Detail []string `json:"detail,omitempty"`
+	Count  *int64   `json:"count,omitempty"`
+	Size   *int64   `json:"size,omitempty"`
+	Paths  []string `json:"paths,omitempty"`
+	Crash  string   `json:"crash,omitempty"`
+}
+
+// VerifPoint marks a named point in the execution.  See package comment at
+// the top of this file.
+func VerifPoint(name string, detail ...string) {
+	s := &verifSt
+	s.once.Do(verifInit)
+	if s.trace == nil && (!s.active || (len(s.delays) == 0 && s.crashSig == 0)) {
+		return
+	}
+	seq := s.seq.Add(1)
+	s.mu.Lock()
+	s.hits[name]++
+	hit := s.hits[name]
+	s.mu.Unlock()
+
+	crash := false
+	if s.active && s.crashSig != 0 && (s.crashName == name || s.crashName == "*") {
+		var k int64
+		if s.crashName == "*" {
+			k = s.crashHits.Add(1)
+		} else {
+			k = hit
+		}
+		if k == s.crashK {
+			crash = true
+			if s.crashOnce != "" {
+				if f, err := os.OpenFile(s.crashOnce,
+					os.O_CREATE|os.O_EXCL|os.O_WRONLY, 0644); err != nil {
+					crash = false
+				} else {
+					f.Close()
+				}
+			}
+		}
+	}
+	if s.trace != nil {
+		rec := verifRecord{
+			T:      verifMonoNs(),
+			Pid:    os.Getpid(),
+			Proc:   s.proc,
+			Seq:    seq,
+			Name:   name,
+			Hit:    hit,
+			Detail: detail,
+		}
+		if crash {
+			rec.Crash = s.crashSig.String()
+		}
+		if s.inventory && strings.HasPrefix(name, "vdr:remove") && len(detail) > 0 {
+			c, sz, paths := verifInventory(detail[0])
+			rec.Count, rec.Size, rec.Paths = &c, &sz, paths
+		}
+		if b, err := json.Marshal(&rec); err == nil {
+			b = append(b, '\n')
+			s.trace.Write(b)
+		}
+	}
+	if crash {
+		syscall.Kill(os.Getpid(), s.crashSig)
+		if s.crashSig == syscall.SIGKILL {
+			// Not reached.
+			select {}
+		}
+		// For handled signals, give the handler a moment to take the
+		// critical section lock, as a real asynchronous signal
+		// arriving here would.
+		time.Sleep(50 * time.Millisecond)
+	}
+	if !s.active {
+		return
+	}
+	for i := range s.delays {
+		d := &s.delays[i]
+		if d.name == name || (d.prefix && strings.HasPrefix(name, d.name)) {
+			// splitmix64 on (seed, seq)
+			z := s.seed + uint64(seq)*0x9E3779B97F4A7C15
+			z = (z ^ (z >> 30)) * 0xBF58476D1CE4E5B9
+			z = (z ^ (z >> 27)) * 0x94D049BB133111EB
+			z ^= z >> 31
+			u := float64(z>>11) / float64(1<<53)
+			if u < d.prob && d.maxMs > 0 {
+				ms := int(z>>7) % (d.maxMs + 1)
+				time.Sleep(time.Duration(ms) * time.Millisecond)
+			}
+			break
+		}
+	}
+}
